@@ -70,13 +70,22 @@ class TaskFailure(Exception):
     pass
 
 
+class HardStop(BaseException):
+    "a SystemExit-like failure: not an Exception subclass"
+
+
+FAILURES = {"TaskFailure": TaskFailure, "StopIteration": StopIteration, "KeyError": KeyError, "ValueError": ValueError,
+            "HardStop": HardStop}
+
+
 def task(model, arg):
     """f(model, x): identifies the task, the process, the time span, and what the model looks like here."""
     t0 = time.time()
     if arg.get("delay_ms"):
         time.sleep(arg["delay_ms"] / 1000.0)
     if arg.get("fail"):
-        raise TaskFailure(f"task {arg['id']} failed")
+        exc = FAILURES[arg["fail"] if isinstance(arg["fail"], str) else "TaskFailure"]
+        raise exc(f"task {arg['id']} failed")
     if arg.get("kill"):
         os._exit(3)                      # the worker process dies without reporting
     return {"id": arg["id"], "x2": arg["x"] * 2 + model["k"], "digest": digest(model), "pid": os.getpid(), "t0": t0, "t1": time.time()}
